@@ -397,6 +397,37 @@ CAP 3
 """
 
 
+SIZES_TOP = """[ defaults ]
+1 2 no 1.0 1.0
+[ atomtypes ]
+P 72.0 0.0 A 0.47 4.0
+[ moleculetype ]
+BIG 1
+[ atoms ]
+1 P 1 BG B1 1 0.0 72
+2 P 2 BG B1 2 0.0 72
+3 P 3 BG B1 3 0.0 72
+4 P 4 BG B1 4 0.0 72
+5 P 5 BG B1 5 0.0 72
+6 P 6 BG B1 6 0.0 72
+[ bonds ]
+1 2 1 0.47 100
+2 3 1 0.47 100
+3 4 1 0.47 100
+4 5 1 0.47 100
+5 6 1 0.47 100
+[ moleculetype ]
+SM 1
+[ atoms ]
+1 P 1 SM S1 1 0.0 72
+[ system ]
+sizes
+[ molecules ]
+BIG 8
+SM 250
+"""
+
+
 SLAB_TOP = """[ defaults ]
 1 2 no 1.0 1.0
 [ atomtypes ]
@@ -506,6 +537,22 @@ def _real_run(arg):
                     try:
                         gen_coords(toppath=top, outpath=wd / "o.gro", name="t", coordpath=wd / "full.gro", build_res=["RA"], max_force=max_force, nrewind=nrewind,
                                    step_fudge=step_fudge)
+                    except _Timeout:
+                        return {"noverdict": "timeout"}
+                    except Exception as exc:
+                        return {"inst": rec.header, "evs": rec.events, "error_in_code": "%s: %s" % (type(exc).__name__, exc)}
+                return {"inst": rec.header, "evs": rec.events, "error_in_code": None}
+            if kind == "sizes":
+                # strongly mixed residue sizes given in a build file: chains of 1.3 nm residues (step length above 1 nm) and 0.2 nm solvent
+                # placed after them (size ratio 6.5); every accepted placement is judged by the monitor with the single global cut-off
+                top = wd / "sizes.top"
+                top.write_text(SIZES_TOP)
+                (wd / "sizes.bld").write_text("[ volumes ]\nBG 1.3\nSM 0.2\n")
+                holder["grid"] = np.mgrid[0:box[0]:0.2, 0:box[1]:0.2, 0:box[2]:0.2].reshape(3, -1).T
+                with w.recording(monitor=make_monitor(step_fudge, max_force, holder)) as rec:
+                    try:
+                        gen_coords(toppath=top, outpath=wd / "o.gro", name="t", box=np.array(box, float), build=[wd / "sizes.bld"], max_force=max_force,
+                                   nrewind=nrewind, step_fudge=step_fudge)
                     except _Timeout:
                         return {"noverdict": "timeout"}
                     except Exception as exc:
@@ -657,7 +704,11 @@ def run(tier):
     runs.append(("rebuild", [3.5, 3.2, 3.8], 0.8, 5e4, 3, sd * 100 + 9, False))
     runs.append(("rebuild", [3.6, 3.6, 3.6], 1.0, 5e4, 2, sd * 100 + 40, False))
     runs.append(("rebuild", [3.4, 3.6, 3.5], 1.2, 5e4, 4, sd * 100 + 41, False))
+    # strongly mixed residue sizes, step length above 1 nm
+    runs.append(("sizes", [7.0, 7.0, 7.0], 1.0, 1e3, 3, sd * 100 + 50, False))
+    runs.append(("sizes", [6.5, 7.0, 7.5], 0.8, 5e4, 5, sd * 100 + 51, False))
     if tier == "thorough":
+        runs += [("sizes", [7.0, 7.0, 7.0], sf, mf, 3, sd * 100 + 70 + i, False) for i, (sf, mf) in enumerate([(1.0, 1e3), (1.2, 1e3), (0.8, 5e4), (1.0, 5e4)])]
         runs += [("rebuild", [3.5, 3.5, 3.5], sf, 5e4, nr, sd * 100 + 60 + i, False) for i, (sf, nr) in enumerate([(1.0, 2), (1.0, 3), (0.8, 4), (1.2, 5), (1.0, 1), (0.8, 2)])]
         runs += [(k, b, sf, mf, nr, sd * 100 + 10 + i, g) for i, (k, b, sf, mf, nr, g) in enumerate(
             [(k, b, sf, mf, nr, g) for k in ("melt", "mix") for b in ([3.0, 3.0, 3.0], [2.7, 3.1, 3.3]) for sf in (0.8, 1.0, 1.2)
